@@ -32,6 +32,14 @@ def _circ_env_classes():
     return out
 
 
+def _descend(u):
+    out = []
+    for c in u.children:
+        out.append(c)
+        out.extend(_descend(c))
+    return out
+
+
 def r09_1_2(run):
     ma, isa = _isa(run)
     g = cfg_of(isa)
@@ -118,6 +126,17 @@ def r09_1_2(run):
                 cls_s = 'circuit=%s known=%s built=%s' % cls
                 run.ob('R09.4', isa, isa.node, 'invalid answer (%s) is reported and sends nothing' % cls_s, not sent and pth.exit == 'raise', slot='invalid:%s' % cls_s,
                        message='an invalid attacher answer (%s) %s' % (cls_s, 'sends %s' % [shape_text(s) for s in sent] if sent else 'is silently accepted'), path=desc)
+    # one decision means one: nothing nested in the decision callback (an errback on the ATTACHSTREAM Deferred, a retry) sends a
+    # second ATTACHSTREAM - "let Tor choose" after Tor refused the chosen circuit replaces the attacher's decision by another one
+    extra = []
+    for ch in _descend(isa):
+        for c in calls_in(ch):
+            if callee_attr(c) == 'queue_command' and c.args and 'ATTACHSTREAM' in src(c.args[0]):
+                extra.append((ch, c))
+    for ch, c in extra:
+        run.ob('R09.2', ch, c, 'no second ATTACHSTREAM from a callback nested in the decision', False, slot='second-decision@%s' % ch.name,
+               message='%s (nested in issue_stream_attach) sends %s: a stream whose attach command Tor refused gets a second, different decision' % (ch.name, src(c.args[0])[:50]))
+    run.ob('R09.2', isa, isa.node, 'nested callbacks of the decision examined (%d senders)' % len(extra), True)
     # chain shape in _maybe_attach
     gm = cfg_of(ma)
     cbs = [(callee_attr(c), dotted(c.args[0]) if c.args else None, c) for c in calls_in(ma) if callee_attr(c) in ('addCallback', 'addErrback', 'addBoth')]
@@ -445,6 +464,7 @@ RULES = [
 from ..selftest import M  # noqa: E402
 FT, FC = 'txtorcon/torstate.py', 'txtorcon/circuit.py'
 MUTANTS = [
+    M('refused-attach-falls-back-to-any-circuit', 'txtorcon/torstate.py', "                return self.protocol.queue_command(\n                    u\"ATTACHSTREAM {} {}\".format(stream.id, circ.id).encode(\"ascii\")\n                )", "                attach_d = self.protocol.queue_command(\n                    u\"ATTACHSTREAM {} {}\".format(stream.id, circ.id).encode(\"ascii\")\n                )\n\n                def went_away(fail):\n                    return self.protocol.queue_command(u\"ATTACHSTREAM {} 0\".format(stream.id).encode(\"ascii\"))\n                attach_d.addErrback(went_away)\n                return attach_d", ['R09.2']),
     M('was-new-computed-late', 'txtorcon/torstate.py', ["        wasnew = False\n", "                stream.listen(x)\n            wasnew = True\n"], ["", "                stream.listen(x)\n        wasnew = stream_id not in self.streams\n"], ['R09.2']),
     M('first-registration-wins', 'txtorcon/circuit.py', "        self._circuit_targets[(real_host, real_port)] = (circuit, d)", "        self._circuit_targets.setdefault((real_host, real_port), (circuit, d))", ['R09.6']),
     M('register-unless-present', 'txtorcon/circuit.py', "        self._circuit_targets[(real_host, real_port)] = (circuit, d)", "        if (real_host, real_port) not in self._circuit_targets:\n            self._circuit_targets[(real_host, real_port)] = (circuit, d)", ['R09.6']),
